@@ -255,4 +255,207 @@ theorem createBucket_exists {s : St D} {b : String} {m : Meta} (_h : Inv s)
   unfold createBucket
   rw [if_pos (List.any_eq_true.mpr hv)]
 
+/-! ### updateBucket -/
+
+/-- the row rewrite of `update_bucket` -/
+def updRow (k : Int) (u : Upd) (r : BRow) : BRow := if r.key = k then { r with md := u.apply r.md } else r
+
+theorem updRow_bid (k : Int) (u : Upd) (r : BRow) : (updRow k u r).bid = r.bid := by
+  unfold updRow; split <;> rfl
+
+theorem updRow_key (k : Int) (u : Upd) (r : BRow) : (updRow k u r).key = r.key := by
+  unfold updRow; split <;> rfl
+
+theorem updateBucket_ok {s s' : St D} {b : String} {u : Upd} (h : updateBucket s b u = .ok s') :
+    ∃ k, keyOf s b = some k ∧ s' = { s with buckets := s.buckets.map (updRow k u) } := by
+  unfold updateBucket at h
+  split at h
+  · cases h
+  · rename_i k hk
+    split at h
+    · injection h with h; exact ⟨k, hk, h.symm⟩
+    · cases h
+
+theorem updateBucket_inv {s s' : St D} {b : String} {u : Upd} (h : Inv s)
+    (hc : updateBucket s b u = .ok s') : Inv s' := by
+  obtain ⟨k, hk, rfl⟩ := updateBucket_ok hc
+  have e1 : ((fun r : BRow => r.bid) ∘ updRow k u) = (fun r : BRow => r.bid) :=
+    funext fun r => updRow_bid k u r
+  have e2 : ((fun r : BRow => r.key) ∘ updRow k u) = (fun r : BRow => r.key) :=
+    funext fun r => updRow_key k u r
+  refine ⟨?_, ?_, h.eids, ?_, ?_⟩
+  · show ((s.buckets.map (updRow k u)).map (fun r : BRow => r.bid)).Nodup
+    rw [List.map_map, e1]; exact h.bids
+  · show ((s.buckets.map (updRow k u)).map (fun r : BRow => r.key)).Nodup
+    rw [List.map_map, e2]; exact h.bkeys
+  · show s.keys = (s.buckets.map (updRow k u)).map (fun r => (r.bid, r.key))
+    rw [List.map_map, h.cache]
+    apply List.map_congr_left
+    intro r _
+    show _ = ((updRow k u r).bid, (updRow k u r).key)
+    rw [updRow_bid, updRow_key]
+  · intro e he
+    obtain ⟨r, hr, hrk⟩ := h.fk e he
+    exact ⟨updRow k u r, List.mem_map_of_mem hr, by rw [updRow_key]; exact hrk⟩
+
+theorem updateBucket_view {s s' : St D} {b : String} {u : Upd} (h : Inv s)
+    (hc : updateBucket s b u = .ok s') :
+    (view s b).isSome ∧ view s' = Spec.update (view s) b u.apply := by
+  obtain ⟨k, hk, rfl⟩ := updateBucket_ok hc
+  obtain ⟨r, hf, hr, hb, hrk, hv⟩ := keyOf_some h hk
+  refine ⟨by rw [hv]; rfl, ?_⟩
+  funext b'
+  have e1 : ((fun r : BRow => decide (r.bid = b')) ∘ updRow k u) = (fun r : BRow => decide (r.bid = b')) :=
+    funext fun r => by show decide ((updRow k u r).bid = b') = _; rw [updRow_bid]
+  rw [view_eq]
+  show Option.map _ ((s.buckets.map (updRow k u)).find? _) = _
+  rw [List.find?_map, e1]
+  by_cases hbb : b' = b
+  · subst hbb
+    rw [hf]
+    simp only [Spec.update, hv, Spec.setB, if_true, Option.map_some]
+    have : updRow k u r = { r with md := u.apply r.md } := by unfold updRow; rw [if_pos hrk]
+    rw [this, ← hrk]; rfl
+  · rw [Spec.frame_update hbb, view_eq]
+    cases hf' : s.buckets.find? (fun r => decide (r.bid = b')) with
+    | none => rfl
+    | some r' =>
+      have hr' := List.mem_of_find?_eq_some hf'
+      have hb' : r'.bid = b' := by simpa using List.find?_some hf'
+      have hne : ¬ r'.key = k := by
+        intro heq
+        have := key_inj h hr' hr (heq.trans hrk.symm)
+        exact hbb (by rw [← hb', this, hb])
+      have : updRow k u r' = r' := by unfold updRow; rw [if_neg hne]
+      simp only [Option.map_some, this]
+      rfl
+
+theorem updateBucket_missing {s : St D} {b : String} {u : Upd} (h : Inv s)
+    (hv : view s b = none) : updateBucket s b u = .error .valueError := by
+  unfold updateBucket
+  rw [(keyOf_none_iff h b).mpr hv]
+
+/-- the `DoesNotExist` branch of `update_bucket` is dead under the invariant -/
+theorem updateBucket_total {s : St D} {b : String} {u : Upd} (h : Inv s)
+    (hv : (view s b).isSome) : ∃ s', updateBucket s b u = .ok s' := by
+  obtain ⟨k, hk⟩ := view_isSome_keyOf h hv
+  obtain ⟨r, _, hr, _, hrk, _⟩ := keyOf_some h hk
+  unfold updateBucket
+  rw [hk]
+  have : s.buckets.any (fun r => decide (r.key = k)) = true :=
+    List.any_eq_true.mpr ⟨r, hr, by simpa using hrk⟩
+  simp only [this, if_true]
+  exact ⟨_, rfl⟩
+
+/-! ### deleteBucket -/
+
+theorem deleteBucket_ok {s s' : St D} {b : String} (h : deleteBucket s b = .ok s') :
+    ∃ k, keyOf s b = some k ∧
+      s' = refresh { s with events := s.events.filter (fun e => decide (e.bucket ≠ k)),
+                            buckets := s.buckets.filter (fun r => decide (r.key ≠ k)) } := by
+  unfold deleteBucket at h
+  split at h
+  · cases h
+  · rename_i k hk
+    injection h with h; exact ⟨k, hk, h.symm⟩
+
+theorem deleteBucket_inv {s s' : St D} {b : String} (h : Inv s)
+    (hc : deleteBucket s b = .ok s') : Inv s' := by
+  obtain ⟨k, hk, rfl⟩ := deleteBucket_ok hc
+  refine ⟨?_, ?_, ?_, rfl, ?_⟩
+  · exact List.Nodup.sublist (List.Sublist.map _ List.filter_sublist) h.bids
+  · exact List.Nodup.sublist (List.Sublist.map _ List.filter_sublist) h.bkeys
+  · exact List.Nodup.sublist (List.Sublist.map _ List.filter_sublist) h.eids
+  · intro e he
+    have he' : e ∈ s.events ∧ e.bucket ≠ k := by simpa using List.mem_filter.mp he
+    obtain ⟨r, hr, hrk⟩ := h.fk e he'.1
+    refine ⟨r, ?_, hrk⟩
+    show r ∈ s.buckets.filter _
+    rw [List.mem_filter]
+    exact ⟨hr, by simpa [hrk] using he'.2⟩
+
+theorem deleteBucket_view {s s' : St D} {b : String} (h : Inv s)
+    (hc : deleteBucket s b = .ok s') :
+    (view s b).isSome ∧ view s' = Spec.deleteBucket (view s) b := by
+  obtain ⟨k, hk, rfl⟩ := deleteBucket_ok hc
+  obtain ⟨r, hf, hr, hb, hrk, hv⟩ := keyOf_some h hk
+  refine ⟨by rw [hv]; rfl, ?_⟩
+  funext b'
+  rw [view_eq]
+  show Option.map _ ((s.buckets.filter _).find? _) = _
+  rw [List.find?_filter]
+  by_cases hbb : b' = b
+  · subst hbb
+    simp only [Spec.deleteBucket, Spec.setB, if_true]
+    have : s.buckets.find? (fun a => decide (decide (a.key ≠ k) = true ∧ decide (a.bid = b') = true)) = none := by
+      rw [List.find?_eq_none]
+      intro x hx
+      simp only [decide_eq_true_eq, not_and]
+      intro hxk hxb
+      have : x = r := nodup_map_inj (f := fun x : BRow => x.bid) h.bids x hx r hr (hxb.trans hb.symm)
+      exact hxk (this ▸ hrk)
+    rw [this]; rfl
+  · rw [Spec.frame_deleteBucket hbb, view_eq]
+    have : s.buckets.find? (fun a => decide (decide (a.key ≠ k) = true ∧ decide (a.bid = b') = true)) =
+        s.buckets.find? (fun a => decide (a.bid = b')) := by
+      apply find?_congr_mem
+      intro x hx
+      by_cases hxb : x.bid = b'
+      · have : x.key ≠ k := by
+          intro heq
+          have := key_inj h hx hr (heq.trans hrk.symm)
+          exact hbb (by rw [← hxb, this, hb])
+        simp [hxb, this]
+      · simp [hxb]
+    rw [this]
+    cases hf' : s.buckets.find? (fun r => decide (r.bid = b')) with
+    | none => rfl
+    | some r' =>
+      have hr' := List.mem_of_find?_eq_some hf'
+      have hb' : r'.bid = b' := by simpa using List.find?_some hf'
+      have hne : r'.key ≠ k := by
+        intro heq
+        have := key_inj h hr' hr (heq.trans hrk.symm)
+        exact hbb (by rw [← hb', this, hb])
+      show some (r'.md, ((s.events.filter _).filter (fun e => decide (e.bucket = r'.key))).map toEv) =
+        some (r'.md, (s.events.filter (fun e => decide (e.bucket = r'.key))).map toEv)
+      rw [List.filter_filter]
+      congr 3
+      apply List.filter_congr
+      intro x _
+      by_cases hx : x.bucket = r'.key
+      · have : x.bucket ≠ k := hx ▸ hne
+        simp [hx, this, hne]
+      · simp [hx]
+
+theorem deleteBucket_missing {s : St D} {b : String} (h : Inv s)
+    (hv : view s b = none) : deleteBucket s b = .error .valueError := by
+  unfold deleteBucket
+  rw [(keyOf_none_iff h b).mpr hv]
+
+/-! ### getMetadata, bucketsOf -/
+
+theorem getMetadata_eq {s : St D} {b : String} (h : Inv s) :
+    getMetadata s b = (match view s b with | some (m, _) => .ok m | none => .error .valueError) := by
+  unfold getMetadata
+  cases hk : keyOf s b with
+  | none => rw [(keyOf_none_iff h b).mp hk]
+  | some k =>
+    obtain ⟨r, _, hr, _, hrk, hv⟩ := keyOf_some h hk
+    rw [hv, ← hrk]
+    simp only [find_key h hr]
+
+theorem bucketsOf_eq {s : St D} (h : Inv s) (b : String) (m : Meta) :
+    (b, m) ∈ bucketsOf s ↔ ∃ es, view s b = some (m, es) := by
+  unfold bucketsOf
+  constructor
+  · intro hm
+    obtain ⟨r, hr, heq⟩ := List.mem_map.mp hm
+    injection heq with hb hmd
+    refine ⟨(rowsOf s r.key).map toEv, ?_⟩
+    rw [view_eq, ← hb, find_bid h hr, ← hmd]; rfl
+  · rintro ⟨es, hv⟩
+    obtain ⟨r, _, hr, hb, _, hm, _⟩ := view_some h hv
+    exact List.mem_map.mpr ⟨r, hr, by rw [hb, hm]⟩
+
 end Aw.Store.Peewee
